@@ -92,6 +92,31 @@ theorem emitted_strictly_ascending (k k' : CoseKey) (ord : CborOrdering)
       simp only [cmpOf]
       rcases ha5 with rfl | rfl | rfl | rfl | rfl <;> exact typed_below_extras_canonical _ (by decide) (by decide) _ hex
 
+theorem paramsGood_perm {ps ps' : List (Label × Value)} (hp : ParamsGood ps) (h : ps'.Perm ps) : ParamsGood ps' := by
+  have hm : (ps'.map (·.1)).Perm (ps.map (·.1)) := h.map (·.1)
+  exact ⟨hm.symm.nodup hp.nodup, fun l hl => hp.nonstd l (hm.subset hl), fun l hl => hp.good l (hm.subset hl)⟩
+
+/-- **C20, last sentence**: a decoded key, canonicalised with either ordering, emits a map that decodes to exactly the canonicalised
+    key — so decoding and re-encoding the canonical encoding gives the same value, hence the same bytes (`to_vec` is a function of
+    the emitted value).  No side condition on labels: this holds for the label 0 too. -/
+theorem canonical_fixed (v : Value) (k k' : CoseKey) (ord : CborOrdering)
+    (hd : CoseKey.fromValue v = .ok k) (h : k.canonicalize ord = .ok k') :
+    ∃ x, k'.toValue = .ok x ∧ CoseKey.fromValue x = .ok k' ∧
+      ∀ k'', CoseKey.fromValue x = .ok k'' → k''.toValue = .ok x := by
+  obtain ⟨_, hp, hacc⟩ := key_accepted_good v k hd
+  obtain ⟨e1, e2, e3, e4, e5, hperm⟩ := perm k k' ord h
+  have hp' : ParamsGood k'.params := paramsGood_perm hp hperm
+  cases k' with
+  | mk kty kid alg ops biv ps =>
+  simp only at e1 e2 e3 e4 e5 hp' hperm
+  have hx := hacc ps hp'
+  rw [← e1, ← e2, ← e3, ← e4, ← e5] at hx
+  refine ⟨_, CoseKey.toValue_entries kty kid alg ops biv ps hp', hx, ?_⟩
+  intro k'' hk''
+  rw [hx] at hk''
+  cases hk''
+  exact CoseKey.toValue_entries kty kid alg ops biv ps hp'
+
 /-- the hypotheses are met by a non-trivial key (extras −1, "a", 7 in unsorted order). -/
 example : (∀ p ∈ witness2b.params, ExtraLabel p.1) ∧ (witness2b.params.map (·.1)).Nodup := by
   refine ⟨?_, by decide⟩
@@ -103,5 +128,6 @@ example : (∀ p ∈ witness2b.params, ExtraLabel p.1) ∧ (witness2b.params.map
   · exact ⟨by simp [ValidLabel], by intro i h0 h5 h; cases h⟩
 
 #print axioms emitted_strictly_ascending
+#print axioms canonical_fixed
 
 end Coset.Props.C20
